@@ -16,7 +16,7 @@ grep -v "documented miss" /tmp/rg_seeds.out | grep -v "rc=1 " | grep -q . && { e
 echo "== behaviour-preserving refactors"
 tools/rfsweep.sh $ALL > /tmp/rg_rf.out
 cat /tmp/rg_rf.out
-[ "$(grep -v 'rfsweep done' /tmp/rg_rf.out | grep -v 'documented analysis-broken' | grep -c .)" = "0" ] || fail=1
+[ "$(grep -v 'rfsweep done' /tmp/rg_rf.out | grep -v 'documented analysis-broken' | grep -v 'documented FALSE ALARM' | grep -c .)" = "0" ] || fail=1
 rm -rf /tmp/qv-evidence-scratch /tmp/rg_*.out /tmp/rg_*.rc /tmp/sw_*.out /tmp/rfs_*.out
 echo "== regress $( [ $fail = 0 ] && echo OK || echo FAILED )"
 exit $fail
